@@ -39,6 +39,38 @@ def bspec(name):
     return spec
 
 
+SPLITS = [(('PI_A', 'PI_B', 'PI_C'), 'pi'), (('L2U', 'L2L'), 'ln2'), (('L10U', 'L10L'), 'log10_2')]
+
+
+def split_constants(ctx, prog):
+    """R4 for the Cody-Waite argument-reduction constants: part k must be the posit rounding (to within one encoding) of the true constant minus
+    the parts before it.  An error of more than an ulp in the last part times the largest reduction quotient (1.25e5 for the trig range) exceeds
+    the stated ULP bound for the inputs nearest to a multiple of pi."""
+    import mpmath
+    from interp import Interp
+    true = {'pi': mpmath.pi, 'ln2': mpmath.log(2), 'log10_2': mpmath.log10(2)}
+    P = P32.posit
+    I = Interp(prog)
+    n = 0
+    for names, cname in SPLITS:
+        res = spec_math._frac(mpmath.mpf(true[cname]))
+        for nm in names:
+            cands = [c for pth, c in prog.consts.items() if pth.endswith('::sleef::' + nm) and 'value' in c]
+            if len(cands) != 1:
+                break   # constant renamed / removed: no instance (not an alarm)
+            v = I.eval_const(cands[0]['value'], None)
+            bits = v.fields[0].uval()
+            want = P.encode(res)
+            n += 1
+            if abs(P.order_key(bits) - P.order_key(want)) > 1:
+                ctx.finding('R4-split', 'sleef::' + nm, 'value', 'reduction constant %s = %#x denotes %.17g but the %s split requires %#x (%.17g): off by %d encodings'
+                            % (nm, bits, float(P.decode(bits)), cname, want, float(P.decode(want)), abs(P.order_key(bits) - P.order_key(want))))
+            else:
+                ctx.sample({'rule': 'R4-split', 'constant': nm, 'bits': hex(bits), 'expected_rounding_of_residual': hex(want)}, limit=8)
+            res -= P.decode(bits)
+    return n
+
+
 def run(ctx):
     prog = ctx.prog('default')
     ctx.rules.append('R2 guarded-cell results: NaR input and out-of-domain cells (constant propagation / interval reasoning through the SLEEF-style bodies)')
@@ -62,6 +94,8 @@ def run(ctx):
         st = run_cells(ctx, prog, 'GCR', 'P32E2::%s' % name, path,
                        lambda cell: [posit_arg(P32, cell[0][0], cell[0][1], 0), posit_arg(P32, cell[1][0], cell[1][1], 1)], [cells, cells], bspec(name), 32)
         tot += decided(st)
+    nsplit = split_constants(ctx, prog)
+    ctx.count('split_constant_parts_checked', nsplit)
     ctx.require('C15 decided cells', tot, 100)
     ctx.undecided['error_bounds'] = 'the ULP bounds, argument-reduction accuracy and behaviour at reduction boundaries are NOT decided (no claim)'
     return LEVEL, ('For the 16 P32E2 elementary functions: NaR input gives NaR and arguments outside the real domain (ln/log2 of x <= 0, asin/acos of |x| > 1) give NaR, '
